@@ -13,7 +13,7 @@
    NOT covered here: everything outside [tree_sem] (casts, neg/inv, loads/stores, moves, jumps, calls, labels,
    frame-relative addressing, floats), register allocation, frame layout, other targets. *)
 From PV Require Import Lib.Py Spec.IRSyntax Spec.IRSem Spec.RV32Decode Spec.RV32Exec Model.RvRules
-  Gen.Tab_rv_patterns Gen.Tab_rv_bad Proofs.C05_arith Proofs.C05_rules Proofs.C05_table.
+  Gen.Tab_rv_patterns Gen.Tab_rv_bad Proofs.C05_arith Proofs.C05_rules Proofs.C05_mem Proofs.C05_table Model.RvFrame Proofs.C05_frame.
 From Coq Require Import String.
 Open Scope Z_scope.
 Open Scope list_scope.
@@ -67,10 +67,116 @@ Theorem c05_rv_rules_decided :
 Proof. exact rules_decided. Qed.
 Print Assumptions c05_rv_rules_decided.
 
+(* ---- memory, move and control rules (Proofs/C05_mem.v).  mem_rel m s: every byte IRSem's memory m holds at an
+   address (0 <= a < 2^32, byte in 0..255) is the byte the machine memory holds there.
+   load_correct: LDRt(reg | mem | ADD(reg, const)) with the 12-bit offset confined by the rule's condition (or, for
+   the (base, offset) pair of a mem child, by hypothesis mem_off_ok): if IRSem.read_bytes at the IR address
+   (congruent to base register + offset) yields bs, the result register represents wrap_t(le_decode bs)
+   (= IRSem.load_val), only the fresh register changes, memory is untouched.
+   store_correct: STRt(reg | mem, reg): if IRSem.write_bytes of le_encode z (z represented by the value register)
+   succeeds with m', then mem_rel m' holds after the store and no register changes.
+   mov_correct: MOVt(reg): tree.value := operand, nothing else changes.
+   cjmp_correct: CJMPt(reg, reg)[op] at 32-bit types: the emitted branch is taken iff IRSem.eval_cond op on the
+   represented values (exec_branch / exec_jal0 give the pc of branch and of the following j);
+   sub-word CJMP rules come out refuted (c05_rv_cjmp_refuted). *)
+Theorem c05_rv_mem_rel_store : forall n m s A x z r m',
+  mem_rel m s -> u32 A = u32 x -> z mod 256 ^ Z.of_nat n = r mod 256 ^ Z.of_nat n ->
+  write_bytes m A (le_encode z n) = Some m' -> mem_rel m' (store_le s n x r).
+Proof. exact store_rel. Qed.
+Print Assumptions c05_rv_mem_rel_store.
+
+Theorem c05_rv_load_rule_sound : forall r, check_load r = true -> load_correct r.
+Proof. exact check_load_sound. Qed.
+Print Assumptions c05_rv_load_rule_sound.
+
+Theorem c05_rv_store_rule_sound : forall r, check_store r = true -> store_correct r.
+Proof. exact check_store_sound. Qed.
+Print Assumptions c05_rv_store_rule_sound.
+
+Theorem c05_rv_mov_rule_sound : forall r, check_mov r = true -> mov_correct r.
+Proof. exact check_mov_sound. Qed.
+Print Assumptions c05_rv_mov_rule_sound.
+
+Theorem c05_rv_cjmp_rule_sound : forall r, check_cjmp r = true -> cjmp_correct r.
+Proof. exact check_cjmp_sound. Qed.
+Print Assumptions c05_rv_cjmp_rule_sound.
+
+Theorem c05_rv_branch_pc : forall bc x y off s,
+  getpc (exec (RBranch bc x y off) s) =
+    (if branch_taken bc (getreg s x) (getreg s y) then u32 (getpc s + off) else u32 (getpc s + 4)) /\
+  (forall q, getreg (exec (RBranch bc x y off) s) q = getreg s q) /\
+  (forall a, loadbyte (exec (RBranch bc x y off) s) a = loadbyte s a).
+Proof. exact exec_branch. Qed.
+Print Assumptions c05_rv_branch_pc.
+
+Theorem c05_rv_jmp_rule_sound : forall r, check_jmp r = true ->
+  exists l, r_body r = [("j"%string, [SOther l])] /\ forall off, to_rv ("j"%string, [off]) = Some (RJal 0 off).
+Proof. exact check_jmp_sound. Qed.
+Print Assumptions c05_rv_jmp_rule_sound.
+
+Theorem c05_rv_cjmp_refuted : forall w, In w rv_cj_bad ->
+  cj_witness_ok (rule_at (fst (fst w))) (snd (fst w)) (snd w) = true /\ check_rule2 (rule_at (fst (fst w))) = false.
+Proof. exact cj_refuted. Qed.
+Print Assumptions c05_rv_cjmp_refuted.
+
+Theorem c05_rv_rules2_decided :
+  forallb (fun n => let r := rule_at n in
+                    negb (in_scope2 r) || check_rule2 r || existsb (fun w => Nat.eqb (fst (fst w)) n) rv_cj_bad ||
+                    existsb (Nat.eqb n) rv_rules2_undecided)
+          (seq 0 (List.length rv_rules)) = true.
+Proof. exact rules2_decided. Qed.
+Print Assumptions c05_rv_rules2_decided.
+
+(* ---- c05_rv_callconv: frame code and argument locations on the abstract frame machine of Model/RvFrame.v
+   (registers + word slots addressed by byte address; the printed prologue/epilogue instruction lists are
+   shown to BE these operations).  Model = RiscvArch without options: arguments in x12..x17 then stack slots
+   packed by size, result in x10.  Balanced: after prologue; any body that restores sp and leaves the save area
+   intact; epilogue => sp, fp, ra and every saved callee-saved register have their entry values, no other
+   register and no memory is changed by the epilogue. *)
+Theorem c05_rv_frame_items_are_ops : forall stacksize saved extras,
+  fops_of (prologue_items stacksize saved extras) = Some (prologue_ops stacksize saved extras) /\
+  fops_of (epilogue_items stacksize saved extras) = Some (epilogue_ops stacksize saved extras).
+Proof. intros. split; [apply prologue_is_ops|apply epilogue_is_ops]. Qed.
+Print Assumptions c05_rv_frame_items_are_ops.
+
+Theorem c05_rv_callconv : forall stacksize saved extras s s2,
+  0 <= stacksize -> NoDup saved -> ~ In SPr saved -> ~ In FPr saved -> ~ In RAr saved ->
+  let ssize := round_up (stacksize + 8) in
+  let rsize := round_up (4 * Z.of_nat (List.length saved)) in
+  let sp0 := f_regs s SPr in
+  let s1 := frun (prologue_ops stacksize saved extras) s in
+  f_regs s1 SPr = sp0 - frame_total stacksize saved extras /\ f_regs s1 FPr = sp0 - ssize + 8 /\
+  (forall x, x <> SPr -> x <> FPr -> f_regs s1 x = f_regs s x) /\
+  (forall a, sp0 <= a -> f_mem s1 a = f_mem s a) /\
+  (f_regs s2 SPr = f_regs s1 SPr ->
+   (forall a, sp0 - ssize - rsize <= a < sp0 - ssize + 8 -> f_mem s2 a = f_mem s1 a) ->
+   let s3 := frun (epilogue_ops stacksize saved extras) s2 in
+   f_regs s3 SPr = sp0 /\ f_regs s3 FPr = f_regs s FPr /\ f_regs s3 RAr = f_regs s RAr /\
+   (forall r, In r saved -> f_regs s3 r = f_regs s r) /\
+   (forall x, x <> SPr -> x <> FPr -> x <> RAr -> ~ In x saved -> f_regs s3 x = f_regs s2 x) /\
+   (forall a, f_mem s3 a = f_mem s2 a)).
+Proof. exact frame_balanced. Qed.
+Print Assumptions c05_rv_callconv.
+
+Theorem c05_rv_arg_locations : forall args,
+  NoDup (regs_of (determine_arg_locations args)) /\
+  (exists n, regs_of (determine_arg_locations args) = firstn n [12; 13; 14; 15; 16; 17]) /\
+  stack_ok (determine_arg_locations args) 0.
+Proof.
+  intros. split; [apply arg_regs_distinct|]. split; [apply arg_locs_regs|apply arg_locs_stack].
+Qed.
+Print Assumptions c05_rv_arg_locations.
+
+Theorem c05_rv_callee_sees_caller_slot : forall stacksize saved extras s off,
+  0 <= stacksize -> NoDup saved -> ~ In SPr saved -> ~ In FPr saved -> ~ In RAr saved ->
+  f_regs (frun (prologue_ops stacksize saved extras) s) FPr + (off + (round_up (stacksize + 8) - 8)) = f_regs s SPr + off.
+Proof. exact callee_sees_caller_slot. Qed.
+Print Assumptions c05_rv_callee_sees_caller_slot.
+
 (* hypotheses are inhabited: ADDI32(reg, reg) is in the table, passes the check; a concrete run of its body *)
 Example c05_nonvacuous :
   exists r, In r rv_rules /\ r_text r = "ADDI32(reg, reg)"%string /\ check_rule r = true /\
-    Nat.ltb 40 (List.length covered_rules) = true /\
+    Nat.ltb 40 (List.length covered_rules) = true /\ Nat.ltb 30 (List.length covered_rules2) = true /\
     (let e := mkEnv [11; 12] [20] [] 0 in
      match instantiate r e with
      | Some il => getreg (exec_seq il (state_of [(11, 4294967295); (12, 3)])) 20 =? 2
@@ -82,7 +188,7 @@ Proof.
     by (vm_compute; reflexivity).
   apply existsb_exists in E. destruct E as (r & Hin & Hr). apply andb_prop in Hr. destruct Hr as [Ht Hc].
   apply String.eqb_eq in Ht. exists r. split; [exact Hin|]. split; [exact Ht|]. split; [exact Hc|].
-  split; [vm_compute; reflexivity|]. split; [|vm_compute; reflexivity].
+  split; [vm_compute; reflexivity|]. split; [vm_compute; reflexivity|]. split; [|vm_compute; reflexivity].
   revert Hin Ht Hc. generalize r. clear r.
   assert (F : forallb (fun r => negb (String.eqb (r_text r) "ADDI32(reg, reg)" && check_rule r) ||
     match instantiate r (mkEnv [11; 12] [20] [] 0) with
